@@ -1,0 +1,19 @@
+//go:build verif
+
+// Add-only exports for the /verif harness (property C20). Not compiled without the tag.
+package keystore
+
+import "gitlab.com/aquachain/aquachain/common"
+
+// VerifAesCTRXOR exposes aesCTRXOR (key, inText, iv).
+func VerifAesCTRXOR(key, inText, iv []byte) ([]byte, error) { return aesCTRXOR(key, inText, iv) }
+
+// VerifAesCBCDecrypt exposes aesCBCDecrypt (key, cipherText, iv).
+func VerifAesCBCDecrypt(key, cipherText, iv []byte) ([]byte, error) {
+	return aesCBCDecrypt(key, cipherText, iv)
+}
+
+// VerifGetKey exposes keyStorePassphrase.GetKey (decrypt + address comparison).
+func VerifGetKey(addr common.Address, filename, auth string) (*Key, error) {
+	return keyStorePassphrase{}.GetKey(addr, filename, auth)
+}
